@@ -1042,6 +1042,67 @@ example :
     runOut .dict ⟨[0], [0], [9], [.min]⟩ (histOf intOps pops) = none := by
   refine ⟨⟨_, rfl, ?_⟩, ⟨_, rfl, ?_⟩, ?_⟩ <;> decide
 
+/-! ### wave 3: statistics of a time = aggregates over the agents live at the end of the step -/
+
+section StepPop
+variable {α : Type}
+
+theorem endOfStep_append (pop : List (IAgent α)) (a b : List (PopOp α)) :
+    endOfStep pop (a ++ b) = endOfStep (endOfStep pop a) b := by simp [endOfStep, List.foldl_append]
+
+/-- an agent deleted by the last operation of the step is not in the population the statistics are taken from. -/
+theorem deleted_not_live (pop : List (IAgent α)) (ops : List (PopOp α)) (ids : List Nat) :
+    ∀ x ∈ endOfStep pop (ops ++ [.delete ids]), x.id ∉ ids := by
+  intro x hx
+  rw [endOfStep_append] at hx
+  simp only [endOfStep, List.foldl_cons, List.foldl_nil, applyOp, List.mem_filter] at hx
+  simpa using hx.2
+
+/-- … and stays out unless it is created again: later operations other than `create` add nobody. -/
+theorem applyOp_ids_subset (pop : List (IAgent α)) (op : PopOp α) (hc : ∀ a, op ≠ .create a) :
+    ∀ x ∈ applyOp pop op, ∃ y ∈ pop, y.id = x.id := by
+  intro x hx
+  cases op with
+  | delete ids => exact ⟨x, (List.mem_filter.mp hx).1, rfl⟩
+  | create a => exact absurd rfl (hc a)
+  | setState id st =>
+    simp only [applyOp, List.mem_map] at hx
+    obtain ⟨y, hy, rfl⟩ := hx
+    exact ⟨y, hy, by split <;> rfl⟩
+  | setValue id p v =>
+    simp only [applyOp, List.mem_map] at hx
+    obtain ⟨y, hy, rfl⟩ := hx
+    exact ⟨y, hy, by split <;> rfl⟩
+  | clear => simp [applyOp] at hx
+
+/-- the count recorded for the time of a step is the number of agents of that type in that state that are live at
+the end of the step (after everything `begin_round`, the agents and `end_round` did), 0 / no record when none. -/
+theorem collectStep_count (o : Ops α) (pop : List (IAgent α)) (ops : List (PopOp α)) (ty st : Nat) :
+    countCell (collectStep o pop ops) ty st = (members ((endOfStep pop ops).map (·.agent)) (ty, st)).length ∧
+    (members ((endOfStep pop ops).map (·.agent)) (ty, st) = [] → lookupGroup (collectStep o pop ops) (ty, st) = none) := by
+  obtain ⟨hnone, hsome⟩ := stat_spec o ((endOfStep pop ops).map (·.agent)) (ty, st)
+  refine ⟨?_, hnone⟩
+  by_cases hm : members ((endOfStep pop ops).map (·.agent)) (ty, st) = []
+  · simp [collectStep, countCell, hnone hm, hm]
+  · obtain ⟨g, hg, hc, _⟩ := hsome hm
+    simp [collectStep, countCell, hg, hc]
+
+end StepPop
+
+/-- Over `Int` / an ordered field every clause of `C13_int` / `C13_field` applies to `collectStep`, because it *is*
+`collect` of the end-of-step population (definitional); stated once for reference. -/
+theorem collectStep_int (pop : List (IAgent Int)) (ops : List (PopOp Int)) (ty st p : Nat) :
+    PropClauses ((endOfStep pop ops).map (·.agent)) ty st p := propClauses _ ty st p
+
+/-- concrete: agent 1 deletes itself while acting, `end_round` deletes agent 0 and creates agent 3 — the statistics
+of the time count agents 2 and 3 only; taken over the list bound before the loop (the stale object) they would
+count three. -/
+example :
+    let pop : List (IAgent Int) := [⟨0, ⟨0, 0, [⟨7, true, 5⟩]⟩⟩, ⟨1, ⟨0, 0, [⟨7, true, 1⟩]⟩⟩, ⟨2, ⟨0, 0, [⟨7, true, -2⟩]⟩⟩]
+    let ops : List (PopOp Int) := [.delete [1], .delete [0], .create ⟨3, ⟨0, 0, [⟨7, true, 9⟩]⟩⟩]
+    countCell (collectStep intOps pop ops) 0 0 = 2 ∧ aggCell (collectStep intOps pop ops) 0 0 7 .total = some 7 ∧
+    countCell (collect intOps (pop.map (·.agent))) 0 0 = 3 := by decide
+
 /-- The full property: the aggregates over `Int` (wave 1), over every ordered field with the mean as a quotient
 (instantiated at ℚ), and the selection / format independence of the reported cells. -/
 def C13_full : Prop := C13_int ∧ C13_field ℚ ∧ C13_selection
@@ -1053,6 +1114,8 @@ theorem C13_full_proved : C13_full := ⟨C13_int_proved, C13_rat, C13_selection_
 #print axioms C13_rat
 #print axioms C13_full_proved
 #print axioms C13_selection_proved
+#print axioms collectStep_count
+#print axioms deleted_not_live
 #print axioms selection_spec
 #print axioms formats_agree
 #print axioms selection_indep
